@@ -98,8 +98,11 @@ def _pick(eng, res, fi, ensemble: bool) -> int:
                 why2 = f"traversal collects {elt}, not the declared share"
     res.ob("R-PICK-FRACTION", fi, "declared-shares", "p contains the declared share (relative or absolute mass) of every component of this system, in component order", c, ok, why2)
     cand = flow.expand_ssa(c.args[0], at) if c.args else None
-    okc = cand is not None and isinstance(cand, ast.Call) and callee_name(cand) == "range" and cand.args and any(
-        norm(cand.args[0]) == norm(ast.parse(f"len({src(lc)})", mode="eval").body) for lc in comps
+    # range(len(<the comprehension>)) — or range(len(<its iterable>)) when the comprehension has no filter (same length)
+    okc = cand is not None and isinstance(cand, ast.Call) and callee_name(cand) == "range" and len(cand.args) == 1 and any(
+        norm(cand.args[0]) == norm(ast.parse(f"len({src(lc)})", mode="eval").body)
+        or (len(lc.generators) == 1 and not lc.generators[0].ifs and norm(cand.args[0]) == norm(ast.parse(f"len({src(lc.generators[0].iter)})", mode="eval").body))
+        for lc in comps
     )
     res.ob("R-PICK-FRACTION", fi, "aligned-candidates", "the drawn number indexes the same traversal that produced p", c, okc, f"candidates {src(cand)[:80] if cand is not None else None}")
     # every molecule generated here is generated from the picked component (no forced / extra members)
